@@ -59,19 +59,25 @@ def run_job(job, root, kind="rel", plan=None, clock=None, env=None, preload=(), 
     return runner.run_tool(argv, cwd=root, root=root, plan=plan, clock=clock, env=env, san=(kind == "san"), preload=preload)
 
 
-def norm(data, root):
+def norm(data, root, strict=False):
     """Replaces the scratch root by $W (the tool embeds absolute output paths in #line)."""
     if data is None:
         return None
-    data = data.replace(root.encode(), b"$W")
+    if strict:
+        # only the one place where the tool is known to embed an absolute path: the #line directive that names its own
+        # code file in -python-native output.  Any other occurrence of the working directory stays visible.
+        rb = root.encode()
+        data = b"\n".join((l.replace(rb, b"$W") if l.startswith(b"#line ") else l) for l in data.split(b"\n"))
+    else:
+        data = data.replace(root.encode(), b"$W")
     # the tool echoes its own command line (argv[0] included) into the code file: the build flavour is not part of the output
     for kind in ("rel", "san"):
         data = data.replace((build.build_dir(kind) + "/bin/").encode(), b"$B/")
     return data
 
 
-def collect_outputs(job, root):
-    return {ch: norm(runner.read_file(os.path.join(root, rel)), root) for ch, rel in job["outputs"].items()}
+def collect_outputs(job, root, strict=False):
+    return {ch: norm(runner.read_file(os.path.join(root, rel)), root, strict) for ch, rel in job["outputs"].items()}
 
 
 def libs_fixture():
